@@ -317,6 +317,16 @@ def gen_cases(seed, tier):
                               {"op": "health", "side": side, "healthy": False}, ck(b"alice"), ck(b"bob"), {"op": "request", "lines": []},
                               {"op": "health", "side": side, "healthy": True}, ck(b"alice"), {"op": "request", "lines": []},
                               {"op": "health", "side": side, "healthy": False}, {"op": "restart"}, ck(b"alice"), {"op": "request", "lines": []}]})
+    # a split REPLACES the previous one, list included: a value that was on the earlier list and is neither on the new one nor
+    # inside the new percentage goes back to the active targets (every value asked after every set)
+    allv = [ck(v) for v in HIST_VALUES] + [{"op": "request", "lines": []}]
+    for (l1, p2, l2) in (([b"alice"], "50", []), ([b"alice", b"bob"], "20", [b"bob"]), ([b"zz9"], "0", []), ([b"1", b"42"], "80", [b"user-7"]),
+                         ([b"alice"], "0", [b""]), ([b"bob"], "100", [])):
+        for p1 in ("0", "30"):
+            cases.append({"kind": "hist", "stream": "hist-relist", "init": 1,
+                          "ops": [{"op": "rollout_deploy", "id": 2}, {"op": "set", "pct": p1, "allow": [v.hex() for v in l1]}] + allv +
+                                 [{"op": "set", "pct": p2, "allow": [v.hex() for v in l2]}] + allv +
+                                 [{"op": "restart"}] + allv + [{"op": "set", "pct": p1, "allow": []}] + allv})
     nh, nrs = (80, 5) if tier == "quick" else (2000, 40)
     for _ in range(nh):
         cases.append(gen_hist(rnd))
